@@ -1,0 +1,24 @@
+//go:build verif
+
+package event
+
+import "github.com/emitter-io/emitter/internal/event/crdt"
+
+// Accessors used only by the out-of-tree verification harness (/verif); compiled with -tags verif.
+
+// Subset identifiers.
+const (
+	VerifTypeSub  = typeSub
+	VerifTypeBan  = typeBan
+	VerifTypeConn = typeConn
+)
+
+// VerifSubset returns the replicated map of one event type.
+func (st *State) VerifSubset(typ uint8) crdt.Map {
+	return st.subsets[typ]
+}
+
+// VerifGet returns the add / remove times held for an event.
+func (st *State) VerifGet(ev Event) crdt.Value {
+	return st.subsets[ev.unitType()].Get(ev.Key())
+}
